@@ -197,9 +197,89 @@ def primality(check, repo):
                  expected="only a candidate for which test_probable_prime did not answer COMPOSITE is returned; candidates are odd")
 
 
+def number_rows(check, repo):
+    """Crypto.Util.number: exact integer helpers on operands far beyond 2^53 (so that any detour through a float,
+    a fixed-width type or a truncating division shows) and at their edges."""
+    NM = "Crypto.Util.number"
+    mod = repo.module(NM)
+    W = 1 << 64
+    big = [0, 1, 2, 3, 7, 8, 9, 255, 256, W - 1, W, W + 1, (1 << 53) + 1, (1 << 200) + 1, (1 << 521) - 1, 10 ** 40 + 7]
+    rows = []
+    for n in big:
+        for d in (1, 2, 3, 8, 255, 256, W - 1, W, (1 << 100) + 1, 10 ** 20):
+            rows.append(("ceil_div", (n, d), ("v", -(-n // d))))
+    rows += [("ceil_div", (5, 0), ("r", "ZeroDivisionError")), ("ceil_div", (-5, 2), ("r", "ValueError")), ("ceil_div", (5, -2), ("r", "ValueError")),
+             ("ceil_div", (0, 0), ("r", "ZeroDivisionError"))]
+    for n in big:
+        rows.append(("size", (n,), ("v", n.bit_length())))
+    rows.append(("size", (-1,), ("r", "ValueError")))
+    for u, v in ((3, 7), (3, W + 13), (10 ** 30 + 1, (1 << 127) - 1), (-3, 7), (W + 6, 7), (1, 2), (5, (1 << 255) - 19), (0, 1), (12345, 1)):
+        rows.append(("inverse", (u, v), ("v", pow(u, -1, v))))
+    rows += [("inverse", (3, 0), ("r", "ZeroDivisionError")), ("inverse", (3, -7), ("r", "ValueError")), ("inverse", (6, 9), ("r", "ValueError")),
+             ("inverse", (0, 7), ("r", "ValueError"))]
+    import math as _m
+    for x, y in ((0, 0), (0, 5), (12, 18), (W, 1 << 70), ((1 << 127) - 1, (1 << 61) - 1), (10 ** 40, 10 ** 35 + 10 ** 30), (-12, 18)):
+        rows.append(("GCD", (x, y), ("v", _m.gcd(x, y))))
+    for n in big + [(1 << 64) - 1, 1 << 63]:
+        for bs in (0, 1, 4, 8, 9):
+            raw = n.to_bytes(max(1, (n.bit_length() + 7) // 8), "big")
+            want = raw if bs == 0 else bytes((-len(raw)) % bs) + raw
+            rows.append(("long_to_bytes", (n, bs), ("v", want)))
+    rows += [("long_to_bytes", (-1, 0), ("r", "ValueError")), ("long_to_bytes", (5, -1), ("r", "ValueError"))]
+    for b in (b"", b"\x00", b"\x01", b"\x00\x00\x01\x00", bytes(range(1, 10)), b"\xff" * 17, bytes(7) + b"\x80" + bytes(40), bytes(range(200, 233))):
+        rows.append(("bytes_to_long", (b,), ("v", int.from_bytes(b, "big"))))
+    defs = {}
+    for node in ast.walk(mod.tree):
+        if isinstance(node, ast.FunctionDef) and node.name in ("ceil_div", "size", "inverse", "GCD", "long_to_bytes", "bytes_to_long"):
+            defs.setdefault(node.name, []).append(node)
+    n = 0
+    by = {}
+    for fname, args, exp in rows:
+        cands = defs.get(fname)
+        if not cands:
+            if fname == "GCD":
+                # bound to math.gcd on every supported interpreter: module-level assignment
+                ok = any(isinstance(x, ast.Assign) and norm(x.value) == "math.gcd" and norm(x.targets[0]) == "GCD" for x in ast.walk(mod.tree))
+                if not ok:
+                    raise AnalysisError("anchor vanished: Crypto.Util.number.GCD")
+                continue
+            raise AnalysisError("anchor vanished: Crypto.Util.number.%s" % fname)
+        for fn in cands:
+            it = Interp(repo, max_depth=4)
+            it.unroll_limit = 1200
+            ps = params_of(fn)
+            res = it.run(mod, fn, dict(zip(ps, args)), bind_defaults=True)
+            rets, rs = res.returns(), res.raise_classes()
+            n += 1
+            if exp[0] == "v":
+                got = rets[0].value if len(rets) == 1 and not rs else None
+                if isinstance(got, bytearray):
+                    got = bytes(got)
+                good = len(rets) == 1 and not rs and type(got) is type(exp[1]) and got == exp[1]
+            else:
+                good = not rets and set(rs) == {exp[1]}
+            if not good:
+                def short(v):
+                    t = repr(v)
+                    return t if len(t) < 50 else t[:24] + ".." + t[-12:]
+                by.setdefault(fname, []).append("%s%s (line %d) -> %s, expected %s" % (
+                    fname, short(args), fn.lineno, short([r.value for r in rets]) + (" raises %s" % sorted(rs) if rs else ""), short(exp[1])))
+    what = {"ceil_div": "ceil_div(n, d) = ceil(n / d) exactly for operands up to 2^521; zero / negative operands refused",
+            "size": "size(N) = bit length of N", "inverse": "inverse(u, v) * u = 1 mod v, reduced to [0, v); non-invertible / zero / negative modulus refused",
+            "GCD": "GCD is math.gcd", "long_to_bytes": "long_to_bytes(n, blocksize) = minimal big-endian encoding of n (one zero byte for 0), left-padded to a multiple of blocksize",
+            "bytes_to_long": "bytes_to_long(s) = big-endian value of s (empty string: 0)"}
+    for fname in ("ceil_div", "size", "inverse", "GCD", "long_to_bytes", "bytes_to_long"):
+        bad = by.get(fname, [])
+        check.ob("K-pw", "K-pw|number.%s" % fname, not bad, mod.path, (defs.get(fname) or [mod.tree])[0].lineno if defs.get(fname) else 0,
+                 extracted=("%d rows differ: " % len(bad) + "; ".join(bad[:3])) if bad else "all rows as the exact integer reference",
+                 expected=what[fname])
+    check.count("number_rows", n)
+
+
 def run(check, ctx):
     repo = ctx.repo
     sibling_methods(check, repo)
     gmp_ulong_guards(check, repo)
     custom_lengths(check, repo)
     primality(check, repo)
+    number_rows(check, repo)
